@@ -10,15 +10,22 @@
    ch2 / sh3 = getHelloConstant(id, SERVER port): what the relay presents to / expects from
    the server.
 
-   Scope: one trigger (one listener, one quadruple of hellos); the relay object outlives it, so
-   resetToStandby IS modelled and handlers that are still running after it keep going.
-   Merged into one step (justified in DESIGN 5/C17): resetToStandby's four tunnel statements
-   (it runs under the relayStatus compare-and-swap, never concurrently with the relay's own
-   sends); a pump's Read and the channel send that follows it.  Outside the model: the
-   unsynchronised plain fields r.trigger and r.tunnelRelayPort (read by the handlers, written
-   by wrapOutput at the NEXT trigger), relayStatus (a pump's choice between parking a chunk
-   in the handshake buffer and forwarding it is carried by the label), send on a closed
-   channel (a panic: no successor state).  Executable definitions only. *)
+   Scope: one trigger (one listener, one quadruple of hellos, ONE handshake of the relay); the
+   relay object outlives it, so resetToStandby IS modelled and handlers that are still running
+   after it keep going.  The relay's own handshake goroutine (handshake / recvAction / sendAction /
+   recvConfig / sendConfig / sendError / flushHandshakeBuffer) and its two in-band pumps
+   (TrzszRelay.wrapInput / wrapOutput) are modelled as far as they decide WHERE bytes go: the status
+   word, tunnelConnected, the two handshake buffers, bufferLock, the in-band output streams.  What
+   the lines mean is not modelled: how many bytes a readLine consumes, whether the line decodes,
+   and the ACT's tunnel / confirm flags are carried by the label (any values), the bytes of the
+   lines the relay writes itself are carried by the label.
+   Merged into one step (justified in DESIGN 5/C17 and 10.20): resetToStandby's four tunnel
+   statements (it runs under the relayStatus compare-and-swap); a pump's Read, its status check,
+   addHandshakeBuffer (under bufferLock) or the channel send that follows; the two loads and the send
+   of sendStringToClient / ToServer and of one round of flushHandshakeBuffer.  Outside the model: the
+   unsynchronised plain fields r.trigger and r.tunnelRelayPort (read by the handlers, written by
+   wrapOutput at the NEXT trigger), a second trigger, the trigger detector on in-band output that is
+   not parked, send on a closed channel (a panic: no successor state).  Executable definitions only. *)
 From Trzsz Require Export Base.Bytes.
 From Trzsz Require Import Gen.Consts Model.Tunnel.
 From Coq Require Import ZArith.
@@ -81,7 +88,8 @@ Definition rt_end_peer (e : rt_end) : option rt_end :=
 Inductive rt_src :=
 | RsCli (c : nat)             (* read from pair c's client connection by ITS wrapInput *)
 | RsSrv (c : nat)             (* read from pair c's server connection by ITS wrapOutput *)
-| RsRelay.                    (* sent by the relay itself (handshake lines, flushed buffers) *)
+| RsRelay                     (* written by the relay itself (its ACT / CFG / FAIL lines) *)
+| RsInband (agreed : bool).   (* read in-band by TrzszRelay.wrapInput / wrapOutput; ghost: tunnelConnected at that moment *)
 
 Inductive rt_dir := RdIn | RdOut.   (* RdIn: client -> server; RdOut: server -> client *)
 
@@ -179,6 +187,65 @@ Definition rt_tag (d : rt_dir) (c : nat) : rt_src := match d with RdIn => RsCli 
 
 Inductive rt_apc := RaAccept | RaCheck (c : nat) | RaDone.
 
+Inductive rt_status := StStandby | StHandshaking | StTransferring.
+
+(* program point of the relay's handshake goroutine *)
+Inductive rt_hspc :=
+| HsRecvAct                           (* action, err := r.recvAction() — reads a line from stdinBuffer *)
+| HsStore (tun conf : bool)           (* r.tunnelConnected.Store(action.TunnelConnected) *)
+| HsSendAct (conf : bool)             (* r.sendAction(action) -> sendStringToServer; if !action.Confirm return *)
+| HsRecvCfg                           (* config, err := r.recvConfig() — reads a line from stdoutBuffer *)
+| HsSendCfg                           (* r.sendConfig(config) -> sendStringToClient; confirm = true *)
+| HsErr1 | HsErr2                     (* deferred: r.sendError(err): FAIL to the client, FAIL to the server *)
+| HsFlushIn (conf : bool)             (* deferred flushHandshakeBuffer(confirm), bufferLock held: stdinBuffer loop *)
+| HsFlushOut (conf : bool)            (* stdoutBuffer loop *)
+| HsFlushEnd (conf : bool)            (* relayStatus.Store(kRelayTransferring) / resetToStandby(kRelayHandshaking); Unlock *)
+| HsIdle.
+
+(* an entry of an in-band output stream: the chunk and (ghost) tunnelConnected when it was written *)
+Definition rt_out := (rt_src * list N * bool)%type.
+
+Record rt_hs := mkRtHs {
+  x_status : rt_status;               (* relayStatus *)
+  x_pc : rt_hspc;
+  x_lock : bool;                      (* bufferLock is held by flushHandshakeBuffer *)
+  x_bufin : list (rt_src * list N);   (* stdinBuffer: parked on the way to the server *)
+  x_bufout : list (rt_src * list N);  (* stdoutBuffer: parked on the way to the client *)
+  x_outin : list rt_out;              (* written to osStdinChan: in-band to the server *)
+  x_outout : list rt_out              (* written to osStdoutChan / bypassTmuxChan: in-band to the client *)
+}.
+
+Definition rt_hs_init : rt_hs := mkRtHs StHandshaking HsRecvAct false [] [] [] [].
+Definition rt_buf (d : rt_dir) (x : rt_hs) := match d with RdIn => x_bufin x | RdOut => x_bufout x end.
+Definition rt_outs (d : rt_dir) (x : rt_hs) := match d with RdIn => x_outin x | RdOut => x_outout x end.
+Definition rt_set_buf (d : rt_dir) (b : list (rt_src * list N)) (x : rt_hs) : rt_hs :=
+  match d with
+  | RdIn => mkRtHs (x_status x) (x_pc x) (x_lock x) b (x_bufout x) (x_outin x) (x_outout x)
+  | RdOut => mkRtHs (x_status x) (x_pc x) (x_lock x) (x_bufin x) b (x_outin x) (x_outout x)
+  end.
+Definition rt_add_out (d : rt_dir) (o : rt_out) (x : rt_hs) : rt_hs :=
+  match d with
+  | RdIn => mkRtHs (x_status x) (x_pc x) (x_lock x) (x_bufin x) (x_bufout x) (x_outin x ++ [o]) (x_outout x)
+  | RdOut => mkRtHs (x_status x) (x_pc x) (x_lock x) (x_bufin x) (x_bufout x) (x_outin x) (x_outout x ++ [o])
+  end.
+Definition rt_set_pc_lock (pc : rt_hspc) (lk : bool) (x : rt_hs) : rt_hs :=
+  mkRtHs (x_status x) pc lk (x_bufin x) (x_bufout x) (x_outin x) (x_outout x).
+Definition rt_hs_finish (st : rt_status) (x : rt_hs) : rt_hs :=
+  mkRtHs st HsIdle false (x_bufin x) (x_bufout x) (x_outin x) (x_outout x).
+Definition rt_set_status (st : rt_status) (x : rt_hs) : rt_hs :=
+  mkRtHs st (x_pc x) (x_lock x) (x_bufin x) (x_bufout x) (x_outin x) (x_outout x).
+
+(* a readLine of the handshake goroutine takes the first k bytes out of a buffer (the rest of a chunk
+   that is cut stays in front, as trzszBuffer.nextBuf / nextIdx keep it) *)
+Fixpoint rt_drop_bytes (k : nat) (b : list (rt_src * list N)) : list (rt_src * list N) :=
+  match k, b with
+  | O, _ => b
+  | _, [] => []
+  | S _, (src, bs) :: r =>
+    if (length bs <=? k)%nat then rt_drop_bytes (k - length bs) r else (src, skipn k bs) :: r
+  end.
+Definition rt_buf_bytes (b : list (rt_src * list N)) : nat := length (concat (map snd b)).
+
 Record rt_state := mkRt {
   r_pairs : list rt_pair;
   r_lis : bool;                       (* tunnelListener != nil and open *)
@@ -187,13 +254,15 @@ Record rt_state := mkRt {
   r_trelay : option nat;              (* tunnelRelay *)
   r_era : nat;                        (* ghost: number of resets so far *)
   r_tconnected : bool;                (* tunnelConnected *)
-  r_parked : list (rt_src * list N)   (* chunks the pumps handed to addHandshakeBuffer(…, true) *)
+  r_x : rt_hs                         (* status word, handshake goroutine, handshake buffers, in-band output *)
 }.
 
-Definition rt_init : rt_state := mkRt [] true RaAccept true None 0 false [].
+(* right after the trigger: wrapOutput has stored kRelayHandshaking, listenForTunnel has listened,
+   `go r.handshake()` has been started *)
+Definition rt_init : rt_state := mkRt [] true RaAccept true None 0 false rt_hs_init.
 
 Definition rt_with_pairs (s : rt_state) (ps : list rt_pair) : rt_state :=
-  mkRt ps (r_lis s) (r_apc s) (r_connector s) (r_trelay s) (r_era s) (r_tconnected s) (r_parked s).
+  mkRt ps (r_lis s) (r_apc s) (r_connector s) (r_trelay s) (r_era s) (r_tconnected s) (r_x s).
 Definition rt_upd_pair (s : rt_state) (c : nat) (f : rt_pair -> rt_pair) : rt_state :=
   rt_with_pairs s (upd c f (r_pairs s)).
 
@@ -207,15 +276,24 @@ Inductive rt_label :=
                                          returns (consulted at RtDial only), fail = the write fails
                                          (consulted at the two writes only, allowed when the far end is gone) *)
 | RLWriter (c : nat) (d : rt_dir)     (* writer goroutine of newTunnelRelay *)
-| RLPump (c : nat) (d : rt_dir) (n : nat) (park : bool)
-                                      (* wrapInput / wrapOutput: Read returned n bytes; park = addHandshakeBuffer took them *)
+| RLPump (c : nat) (d : rt_dir) (n : nat)
+                                      (* tunnelRelay.wrapInput / wrapOutput: Read returned n bytes: addHandshakeBuffer(…, true) takes
+                                         them (back-pointer set and the relay handshaking) or they go into the pump's own channel *)
 | RLPumpEof (c : nat) (d : rt_dir)    (* Read returned io.EOF *)
 | RLPumpExit (c : nat) (d : rt_dir)   (* t.relay.Load() == nil: break; deferred close(chan) *)
 | RLPumpSpin (c : nat) (d : rt_dir)   (* Read on a connection the relay closed itself: n = 0, err != io.EOF: next iteration *)
 | RLSetConnector (v : bool)           (* SetTunnelConnector *)
-| RLActFlag (v : bool)                (* handshake: r.tunnelConnected.Store(action.TunnelConnected) *)
-| RLInject (d : rt_dir) (bs : list N) (* the relay sends into the adopted bridge (t := tunnelRelay.Load(); t != nil && tunnelConnected) *)
-| RLReset.                            (* resetToStandby (tunnel part) *)
+| RLInband (d : rt_dir) (bs : list N) (* TrzszRelay.wrapInput (RdIn) / wrapOutput (RdOut): Read returned bs in-band *)
+| RLHsRead (k : nat) (ok tun conf : bool)
+                                      (* handshake goroutine at recvAction / recvConfig: the line it reads takes k bytes out of the buffer;
+                                         ok = it decodes; tun, conf = the ACT's tunnel / confirm fields (consulted at recvAction only) *)
+| RLHs (bs : list N)                  (* handshake goroutine: next statement (bs = the line it writes, consulted at the four sends only) *)
+| RLReset.                            (* resetToStandby(kRelayTransferring): a pump or an in-band pump saw an end marker / ctrl-c *)
+
+Definition rt_with_x (s : rt_state) (x : rt_hs) : rt_state :=
+  mkRt (r_pairs s) (r_lis s) (r_apc s) (r_connector s) (r_trelay s) (r_era s) (r_tconnected s) x.
+Definition rt_handshaking (s : rt_state) : bool :=
+  match x_status (r_x s) with StHandshaking => true | _ => false end.
 
 Definition rt_half_push (x : rt_src * list N) (h : rt_half) : rt_half :=
   mkRtHalf (h_chan h ++ [x]) (h_chan_closed h) (h_writer h) (h_pump h) (h_log h).
@@ -226,6 +304,36 @@ Definition rt_half_close_chan (h : rt_half) : rt_half :=
 
 Definition rt_chan_has_room (h : rt_half) : bool :=
   negb (h_chan_closed h) && (N.of_nat (length (h_chan h)) <? Consts.rtunnel_chan_cap).
+
+(* the relay writes chunk x towards the server (RdIn) / the client (RdOut):
+     if t := r.tunnelRelay.Load(); t != nil && r.tunnelConnected.Load() { t.clientBufChan / serverBufChan <- x } else { in-band }
+   and the handshake goroutine moves on to pc (lk = bufferLock is / stays held) *)
+Definition rt_route (s : rt_state) (d : rt_dir) (x : rt_src * list N) (pc : rt_hspc) (lk : bool) : option rt_state :=
+  let x' := rt_set_pc_lock pc lk (r_x s) in
+  match r_trelay s, r_tconnected s with
+  | Some c, true =>
+    match nth_error (r_pairs s) c with
+    | Some p =>
+      match p_br p with
+      | Some b =>
+        if rt_chan_has_room (rt_half_of d b)
+        then Some (rt_with_x (rt_upd_pair s c (rt_set_br (rt_set_half d (rt_half_push x (rt_half_of d b)) b))) x')
+        else None
+      | None => None
+      end
+    | None => None
+    end
+  | _, _ => Some (rt_with_x s (rt_add_out d (x, r_tconnected s) x'))
+  end.
+
+(* resetToStandby, once its compare-and-swap on relayStatus has succeeded: listener.Close(), tunnelListener.Store(nil);
+   t.relay.Store(nil), tunnelRelay.Store(nil); tunnelConnected.Store(false) *)
+Definition rt_reset (s : rt_state) (x : rt_hs) : rt_state :=
+  let ps := match r_trelay s with
+            | Some c => upd c (fun p => match p_br p with Some b => rt_set_br (rt_set_relay false b) p | None => p end) (r_pairs s)
+            | None => r_pairs s
+            end in
+  mkRt ps false (r_apc s) (r_connector s) None (S (r_era s)) false x.
 
 Definition rt_handler (ch1 sh4 ch2 sh3 : list N) (s : rt_state) (c : nat) (p : rt_pair)
            (dial : option (list pev)) (fail : bool) : option rt_state :=
@@ -289,7 +397,7 @@ Definition rt_handler (ch1 sh4 ch2 sh3 : list N) (s : rt_state) (c : nat) (p : r
     | None =>
       Some (mkRt (upd c (fun p => mkRtPair (p_cli p) (p_srv p) RtStoreRelay (p_first p) (p_sfirst p) (p_br p) (Some (r_era s)))
                       (r_pairs s))
-                 (r_lis s) (r_apc s) (r_connector s) (Some c) (r_era s) (r_tconnected s) (r_parked s))
+                 (r_lis s) (r_apc s) (r_connector s) (Some c) (r_era s) (r_tconnected s) (r_x s))
     | Some _ => Some (rt_upd_pair s c (rt_set_pc RtCloseC))
     end
   | RtStoreRelay =>
@@ -309,7 +417,7 @@ Definition rt_handler (ch1 sh4 ch2 sh3 : list N) (s : rt_state) (c : nat) (p : r
     end
   | RtCloseLis =>
     Some (mkRt (upd c (rt_set_pc (RtDone RoWon)) (r_pairs s)) false (r_apc s) (r_connector s) (r_trelay s) (r_era s)
-               (r_tconnected s) (r_parked s))
+               (r_tconnected s) (r_x s))
   | RtCloseC =>
     match p_br p with
     | Some b => Some (rt_upd_pair s c (fun p => rt_set_pc RtCloseS (rt_set_br (rt_set_half RdIn (rt_half_close_chan (b_in b)) b) p)))
@@ -353,7 +461,7 @@ Definition rt_step (ch1 sh4 ch2 sh3 : list N) (s : rt_state) (l : rt_label) : op
       match p_pc p with
       | RtPending =>
         Some (mkRt (upd c (rt_set_pc RtAccepted) (r_pairs s)) (r_lis s) (RaCheck c) (r_connector s) (r_trelay s)
-                   (r_era s) (r_tconnected s) (r_parked s))
+                   (r_era s) (r_tconnected s) (r_x s))
       | _ => None
       end
     | _, _, _ => None
@@ -362,7 +470,7 @@ Definition rt_step (ch1 sh4 ch2 sh3 : list N) (s : rt_state) (l : rt_label) : op
     (* tunnelListener.Load() == nil, or Accept fails: return (the deferred close is a no-op then) *)
     match r_apc s, r_lis s with
     | RaAccept, false =>
-      Some (mkRt (r_pairs s) false RaDone (r_connector s) (r_trelay s) (r_era s) (r_tconnected s) (r_parked s))
+      Some (mkRt (r_pairs s) false RaDone (r_connector s) (r_trelay s) (r_era s) (r_tconnected s) (r_x s))
     | _, _ => None
     end
   | RLCheck =>
@@ -371,10 +479,10 @@ Definition rt_step (ch1 sh4 ch2 sh3 : list N) (s : rt_state) (l : rt_label) : op
       match r_trelay s with
       | Some _ =>             (* clientConn.Close(); return; deferred: listener.Close(), Store(nil) *)
         Some (mkRt (upd c (rt_give_up RoBusy) (r_pairs s)) false RaDone (r_connector s) (r_trelay s) (r_era s)
-                   (r_tconnected s) (r_parked s))
+                   (r_tconnected s) (r_x s))
       | None =>               (* go r.handleTunnelConn(clientConn) *)
         Some (mkRt (upd c (rt_set_pc RtLoadConn) (r_pairs s)) (r_lis s) RaAccept (r_connector s) (r_trelay s) (r_era s)
-                   (r_tconnected s) (r_parked s))
+                   (r_tconnected s) (r_x s))
       end
     | _ => None
     end
@@ -409,7 +517,7 @@ Definition rt_step (ch1 sh4 ch2 sh3 : list N) (s : rt_state) (l : rt_label) : op
       end
     | None => None
     end
-  | RLPump c d n park =>
+  | RLPump c d n =>
     match nth_error (r_pairs s) c with
     | Some p =>
       match p_br p, rt_src_end d p with
@@ -421,11 +529,11 @@ Definition rt_step (ch1 sh4 ch2 sh3 : list N) (s : rt_state) (l : rt_label) : op
              && (N.of_nat n <=? Consts.rtunnel_pump_bufsize)
           then
             let x := (rt_tag d c, firstn n (e_rx e)) in
-            if park then
-              if b_relay b    (* if r := t.relay.Load(); r != nil { … addHandshakeBuffer(…, buf, true) … continue } *)
-              then Some (mkRt (upd c (rt_set_src_end d (rt_end_drop n e)) (r_pairs s)) (r_lis s) (r_apc s) (r_connector s)
-                              (r_trelay s) (r_era s) (r_tconnected s) (r_parked s ++ [x]))
-              else None
+            if b_relay b && rt_handshaking s
+            then      (* if r := t.relay.Load(); r != nil { … addHandshakeBuffer(buffer, buf, true) … continue } *)
+              if x_lock (r_x s) then None
+              else Some (mkRt (upd c (rt_set_src_end d (rt_end_drop n e)) (r_pairs s)) (r_lis s) (r_apc s) (r_connector s)
+                              (r_trelay s) (r_era s) (r_tconnected s) (rt_set_buf d (rt_buf d (r_x s) ++ [x]) (r_x s)))
             else
               if rt_chan_has_room h
               then Some (rt_upd_pair s c (fun p =>
@@ -485,34 +593,65 @@ Definition rt_step (ch1 sh4 ch2 sh3 : list N) (s : rt_state) (l : rt_label) : op
     | None => None
     end
   | RLSetConnector v =>
-    Some (mkRt (r_pairs s) (r_lis s) (r_apc s) v (r_trelay s) (r_era s) (r_tconnected s) (r_parked s))
-  | RLActFlag v =>
-    Some (mkRt (r_pairs s) (r_lis s) (r_apc s) (r_connector s) (r_trelay s) (r_era s) v (r_parked s))
-  | RLInject d bs =>
-    match r_trelay s with
-    | Some c =>
-      if r_tconnected s then
-        match nth_error (r_pairs s) c with
-        | Some p =>
-          match p_br p with
-          | Some b =>
-            if rt_chan_has_room (rt_half_of d b)
-            then Some (rt_upd_pair s c (rt_set_br (rt_set_half d (rt_half_push (RsRelay, bs) (rt_half_of d b)) b)))
-            else None
-          | None => None
-          end
-        | None => None
-        end
+    Some (mkRt (r_pairs s) (r_lis s) (r_apc s) v (r_trelay s) (r_era s) (r_tconnected s) (r_x s))
+  | RLInband d bs =>
+    (* status := r.relayStatus.Load(); if status == kRelayHandshaking { status, ok = r.addHandshakeBuffer(buffer, buf, false); if ok { continue } }
+       … r.osStdinChan <- buf / r.bypassTmuxChan <- buf / r.osStdoutChan <- buf *)
+    match bs with
+    | [] => None
+    | _ :: _ =>
+      let x := (RsInband (r_tconnected s), bs) in
+      if rt_handshaking s then
+        if x_lock (r_x s) then None       (* addHandshakeBuffer waits for bufferLock *)
+        else if r_tconnected s            (* status != kRelayHandshaking || !tunnel && r.tunnelConnected.Load() *)
+        then Some (rt_with_x s (rt_add_out d (x, r_tconnected s) (r_x s)))
+        else Some (rt_with_x s (rt_set_buf d (rt_buf d (r_x s) ++ [x]) (r_x s)))
+      else Some (rt_with_x s (rt_add_out d (x, r_tconnected s) (r_x s)))
+    end
+  | RLHsRead k ok tun conf =>
+    match x_pc (r_x s) with
+    | HsRecvAct =>
+      if (1 <=? k)%nat && (k <=? rt_buf_bytes (x_bufin (r_x s)))%nat
+      then Some (rt_with_x s (rt_set_pc_lock (if ok then HsStore tun conf else HsErr1) false
+                                (rt_set_buf RdIn (rt_drop_bytes k (x_bufin (r_x s))) (r_x s))))
       else None
-    | None => None
+    | HsRecvCfg =>
+      if (1 <=? k)%nat && (k <=? rt_buf_bytes (x_bufout (r_x s)))%nat
+      then Some (rt_with_x s (rt_set_pc_lock (if ok then HsSendCfg else HsErr1) false
+                                (rt_set_buf RdOut (rt_drop_bytes k (x_bufout (r_x s))) (r_x s))))
+      else None
+    | _ => None
+    end
+  | RLHs bs =>
+    match x_pc (r_x s) with
+    | HsStore tun conf =>
+      Some (mkRt (r_pairs s) (r_lis s) (r_apc s) (r_connector s) (r_trelay s) (r_era s) tun
+                 (rt_set_pc_lock (HsSendAct conf) false (r_x s)))
+    | HsSendAct conf =>
+      rt_route s RdIn (RsRelay, bs) (if conf then HsRecvCfg else HsFlushIn false) (negb conf)
+    | HsSendCfg => rt_route s RdOut (RsRelay, bs) (HsFlushIn true) true
+    | HsErr1 => rt_route s RdOut (RsRelay, bs) HsErr2 false
+    | HsErr2 => rt_route s RdIn (RsRelay, bs) (HsFlushIn false) true
+    | HsFlushIn conf =>
+      match x_bufin (r_x s) with
+      | x :: rest => rt_route (rt_with_x s (rt_set_buf RdIn rest (r_x s))) RdIn x (HsFlushIn conf) true
+      | [] => Some (rt_with_x s (rt_set_pc_lock (HsFlushOut conf) true (r_x s)))
+      end
+    | HsFlushOut conf =>
+      match x_bufout (r_x s) with
+      | x :: rest => rt_route (rt_with_x s (rt_set_buf RdOut rest (r_x s))) RdOut x (HsFlushOut conf) true
+      | [] => Some (rt_with_x s (rt_set_pc_lock (HsFlushEnd conf) true (r_x s)))
+      end
+    | HsFlushEnd conf =>
+      if conf then Some (rt_with_x s (rt_hs_finish StTransferring (r_x s)))
+      else Some (rt_reset s (rt_hs_finish StStandby (r_x s)))     (* resetToStandby(kRelayHandshaking) *)
+    | _ => None
     end
   | RLReset =>
-    (* listener.Close(), tunnelListener.Store(nil); t.relay.Store(nil), tunnelRelay.Store(nil); tunnelConnected.Store(false) *)
-    let ps := match r_trelay s with
-              | Some c => upd c (fun p => match p_br p with Some b => rt_set_br (rt_set_relay false b) p | None => p end) (r_pairs s)
-              | None => r_pairs s
-              end in
-    Some (mkRt ps false (r_apc s) (r_connector s) None (S (r_era s)) false (r_parked s))
+    match x_status (r_x s) with
+    | StTransferring => Some (rt_reset s (rt_set_status StStandby (r_x s)))
+    | _ => None
+    end
   end.
 
 Fixpoint rt_run (ch1 sh4 ch2 sh3 : list N) (s : rt_state) (ls : list rt_label) : option rt_state :=
@@ -527,11 +666,12 @@ Definition rt_reach (ch1 sh4 ch2 sh3 : list N) (s : rt_state) : Prop :=
 (* ------------------------------------------------------------------------------------ *)
 (* vocabulary of the theorems *)
 
-Definition rt_is_reset (l : rt_label) : bool := match l with RLReset => true | _ => false end.
+Definition rt_is_tunnel_src (x : rt_src) : bool := match x with RsCli _ | RsSrv _ => true | _ => false end.
 
 Definition rt_tag_ok (d : rt_dir) (c : nat) (x : rt_src * list N) : bool :=
   match fst x, d with
   | RsRelay, _ => true
+  | RsInband agreed, _ => negb agreed
   | RsCli c', RdIn => Nat.eqb c' c
   | RsSrv c', RdOut => Nat.eqb c' c
   | _, _ => false
